@@ -5,12 +5,16 @@ package main
 import (
 	"bytes"
 	"crypto"
+	"crypto/ecdsa"
 	"crypto/ed25519"
 	"crypto/rand"
 	"crypto/rsa"
 	"crypto/sha256"
+	"crypto/x509"
 	"encoding/asn1"
+	"encoding/pem"
 	"fmt"
+	"math/big"
 	"strings"
 	"sync"
 	"time"
@@ -51,7 +55,7 @@ func signWith(kp *tlsgen.CertKeyPair, h *comm.Handshake) {
 }
 
 func unitC16(e common.Env, p *common.Part) {
-	p.Rule = "real listeners on 127.0.0.1 with identities registered in two domains; hostile connections interleaved with honest ones; field-level cases through the library's own client with a hostile AuthFunc (domain: other registered / unregistered / empty / boundary shifted into the identity / every registered identity, one of them registered without a domain, claiming every domain with its own valid signature; binding: zero / random / truncated / recorded on another connection, also with a signed creation time 31 s / 1 h in the past, at or before 1970, 1 h ahead; identity: unregistered, another node's certificate, registered identities of several PEM blocks signed with the first / the last certificate's key, PEM with leading garbage, non-PEM, RSA, Ed25519, P-384; signature: absent / random / by another registered key / over another binding / garbled), encoding-level cases through a raw TLS client (every truncation length of the encoded handshake [every 4th in quick], length-prefix lies, trailing bytes, whole-handshake replay); every connection then sends a frame with a unique marker; oracle: marker <-> connection <-> entitled identity table, judged after a fence of honest markers and a grace period; distinct key = (field, mutation, identity); non-trivial when the handshake differs from a valid one for that connection"
+	p.Rule = "real listeners on 127.0.0.1 with identities registered in two domains; hostile connections interleaved with honest ones; field-level cases through the library's own client with a hostile AuthFunc (domain: other registered / unregistered / empty / boundary shifted into the identity / every registered identity, one of them registered without a domain, claiming every domain with its own valid signature; binding: zero / random / truncated / recorded on another connection, also with a signed creation time 31 s / 1 h in the past, at or before 1970, 1 h ahead; identity: unregistered, another node's certificate, registered identities of several PEM blocks signed with the first / the last certificate's key, PEM with leading garbage, non-PEM, RSA, Ed25519, P-384; signature: absent / random / by another registered key / over another binding / garbled / computed from the public key alone for an empty digest, with the claimed domain cut inside a multi-byte character of a registered one), encoding-level cases through a raw TLS client (every truncation length of the encoded handshake [every 4th in quick], length-prefix lies, trailing bytes, whole-handshake replay); every connection then sends a frame with a unique marker; oracle: marker <-> connection <-> entitled identity table, judged after a fence of honest markers and a grace period; distinct key = (field, mutation, identity); non-trivial when the handshake differs from a valid one for that connection"
 	p.Assumptions = append(p.Assumptions, "timestamp staleness is not in the property's list and is not judged; 'no attributed message' is bounded by a fence (honest markers sent afterwards have arrived) plus a grace period, so a slow machine can only cause a missed detection, never an alarm")
 	if !e.Mine(0) {
 		return
@@ -94,6 +98,11 @@ func unitC16(e common.Env, p *common.Part) {
 	chain3 := append(append(append([]byte{}, k1.Cert...), []byte("-----BEGIN PUBLIC KEY-----\nAAAA\n-----END PUBLIC KEY-----\n")...), k2.Cert...)
 	env.p2id[lookupKey("dom", chain)] = 13
 	env.p2id[lookupKey("dom", chain3)] = 14
+	// node 15: registered under a domain that ends in a multi-byte character, with an identity file that starts with a text line
+	// (the lookup key is the hash of domain || identity, so the boundary between the two can be claimed elsewhere)
+	k15, _ := env.ca.NewClientCertKeyPair()
+	id15 := append([]byte("rich\n"), k15.Cert...)
+	env.p2id[lookupKey("z\xc3\xbc", id15)] = 15
 	unreg, _ := env.ca.NewClientCertKeyPair() // a valid certificate of the same CA that is not registered
 	n2, n3, n5 := env.nodes[2], env.nodes[3], env.nodes[5]
 
@@ -358,6 +367,67 @@ func unitC16(e common.Env, p *common.Part) {
 	domCase("UTF8String that is not UTF-8", asn1.TagUTF8String, []byte{'d', 0xff}, "", none)
 	domCase("OCTET STRING", asn1.TagOctetString, []byte("dom"), "", none)
 	domCase("UTF8String 'dom' with a NUL appended", asn1.TagUTF8String, []byte("dom\x00"), "", none)
+
+	// node 15 itself, with its own key and a valid signature, claims the domain "z\xc3\xbcr" (one more character) and presents its
+	// identity file minus that character: the hash of domain || identity is the registered one, but node 15 is not registered under
+	// the claimed domain and what it presents is not the identity registered for it
+	add(c16case{Field: "domain", Mutation: "boundary between domain and identity moved by the key holder itself (identity file with a leading text line)", Domain: "z\xc3\xbcr", Auth: func(b []byte) comm.Handshake {
+		h := comm.Handshake{Domain: "z\xc3\xbcr", TLSBinding: b, Identity: append([]byte("ich\n"), k15.Cert...), Timestamp: time.Now().Unix()}
+		signWith(k15, &h)
+		return h
+	}, Entitled: none})
+	add(c16case{Field: "none", Mutation: "valid handshake of node 15 (domain ending in a multi-byte character, identity file with a leading text line)", Domain: "z\xc3\xbc", Auth: func(b []byte) comm.Handshake {
+		h := comm.Handshake{Domain: "z\xc3\xbc", TLSBinding: b, Identity: id15, Timestamp: time.Now().Unix()}
+		signWith(k15, &h)
+		return h
+	}, Entitled: 15, EntDom: "z\xc3\xbc"})
+	// somebody WITHOUT any private key: the claimed domain is node 15's cut inside its last character (as a T61String, which may carry
+	// such bytes but cannot be re-encoded), the identity is the rest of that character followed by node 15's identity file - the
+	// lookup key is node 15's. The signature is the one anybody can compute from a public key alone for the all-zero digest
+	// (r = x(vQ), s = r/v): it verifies exactly if the receiver ends up checking it against an empty digest. Controls: the same
+	// signature with the domain sent as UTF8String (not decodable / not registered), and with node 15's genuine split.
+	if blk, _ := pem.Decode(k15.Cert); blk != nil {
+		if cert, err := x509.ParseCertificate(blk.Bytes); err == nil {
+			if pub, ok := cert.PublicKey.(*ecdsa.PublicKey); ok {
+				forge := func() []byte {
+					n := pub.Curve.Params().N
+					v, _ := rand.Int(rand.Reader, new(big.Int).Sub(n, big.NewInt(2)))
+					v.Add(v, big.NewInt(1))
+					x, _ := pub.Curve.ScalarMult(pub.X, pub.Y, v.Bytes())
+					r := new(big.Int).Mod(x, n)
+					sg := new(big.Int).Mul(r, new(big.Int).ModInverse(v, n))
+					sg.Mod(sg, n)
+					b, _ := asn1.Marshal(struct{ R, S *big.Int }{r, sg})
+					return b
+				}
+				for _, v := range []struct {
+					name     string
+					tag      int
+					dom, idn []byte
+				}{
+					{"domain cut inside a multi-byte character (T61String), rest of the character in front of the identity", asn1.TagT61String, []byte("z\xc3"), append([]byte("\xbc"), id15...)},
+					{"domain cut inside a multi-byte character (GeneralString), rest of the character in front of the identity", asn1.TagGeneralString, []byte("z\xc3"), append([]byte("\xbc"), id15...)},
+					{"domain cut inside a multi-byte character (UTF8String)", asn1.TagUTF8String, []byte("z\xc3"), append([]byte("\xbc"), id15...)},
+					{"node 15's own domain and identity", asn1.TagUTF8String, []byte("z\xc3\xbc"), id15},
+					{"domain cut before the multi-byte character (T61String)", asn1.TagT61String, []byte("z"), append([]byte("\xc3\xbc"), id15...)},
+				} {
+					v := v
+					add(c16case{Field: "signature", Mutation: "computed from the public key alone for an empty digest; " + v.name, Raw: func(valid []byte) []byte {
+						var hv comm.Handshake
+						if _, err := asn1.Unmarshal(valid[2:], &hv); err != nil {
+							return valid[:1]
+						}
+						r := rawHS{Domain: asn1.RawValue{Class: asn1.ClassUniversal, Tag: v.tag, Bytes: v.dom}, TLSBinding: hv.TLSBinding, Identity: v.idn, Timestamp: hv.Timestamp, Signature: forge()}
+						body, err := asn1.Marshal(r)
+						if err != nil {
+							return valid[:1]
+						}
+						return append([]byte{byte(len(body)), byte(len(body) >> 8)}, body...)
+					}, Entitled: none})
+				}
+			}
+		}
+	}
 
 	// --- run: hostile connections interleaved with honest ones (node 5 keeps sending honest traffic)
 	honest := env.client(1, "dom", honestAuth(n5.ident, "dom"))
